@@ -34,6 +34,12 @@ structure SelectStmt where
   distinct : Bool
   deriving Repr, Inhabited
 
+/-- one `ExpressionTree::Aggregate` node of HAVING, in the order `visit` reaches it -/
+inductive HavingRef where
+  | key (canon : String)
+  | agg (id : Nat) (kind : AggKind)
+  deriving Repr, Inhabited
+
 structure AggStmt where
   items : List AggItem
   filter : Option Expr
@@ -41,6 +47,7 @@ structure AggStmt where
   having : Option Expr
   havingAggs : List (Nat × AggKind)            -- non-key aggregates of HAVING in visit order, with their ids
   havingKeys : List String                     -- canonical texts of the GROUP BY references inside HAVING
+  havingVisit : List HavingRef := []           -- both kinds interleaved, in visit order (decides which error comes first)
   limit : Option Nat
   distinct : Bool
   deriving Repr, Inhabited
@@ -412,6 +419,17 @@ def enumFrom {α : Type} (n : Nat) : List α → List (Nat × α)
   | [] => []
   | x :: xs => (n, x) :: enumFrom (n + 1) xs
 
+/-- the HAVING walk of `update_aggregates`: key references are validated and non-key aggregates updated in visit
+order; the j-th non-key aggregate owns index `items.length + j` -/
+def havingUpdates (O : Oracles) (q : AggStmt) (env : Env) (key : List Value) : List HavingRef → Nat → AggState → Outcome AggState
+  | [], _, st => .ok st
+  | .key canon :: rest, j, st => do
+    validateGroupKey q canon
+    havingUpdates O q env key rest j st
+  | .agg _ kind :: rest, j, st => do
+    let st ← updateAggregate O q env key (q.items.length + j) kind st
+    havingUpdates O q env key rest (j + 1) st
+
 /-- `execute_update`: WHERE, group key, every select-list aggregate, then HAVING's aggregates -/
 def aggUpdateRow (O : Oracles) (q : AggStmt) (st : AggState) (env : Env) : Outcome (AggState × Bool) := do
   let valid ← (match q.filter with
@@ -426,9 +444,7 @@ def aggUpdateRow (O : Oracles) (q : AggStmt) (st : AggState) (env : Env) : Outco
       | none => pure [Value.null] : Outcome (List Value))
     let st ← updateAggregates O q env key (enumFrom 0 (q.items.map (·.kind))) st
     let st ← (match q.having with
-      | some _ => do
-        (q.havingKeys.foldlM (fun (_ : Unit) c => validateGroupKey q c) () : Outcome Unit)
-        updateAggregates O q env key (enumFrom q.items.length (q.havingAggs.map (·.2))) st
+      | some _ => havingUpdates O q env key q.havingVisit 0 st
       | none => pure st : Outcome AggState)
     pure (st, true)
 
